@@ -6,6 +6,7 @@ from .. import core, tlc
 from ..trace import TraceWriter
 
 ASSUMPTIONS = [
+    'TLAPS (tla/proofs/RejectProofs.tla, checked by tlapm on every run): RejectsInvalid of Reject.tla holds after any sequence of edits and calls',
     "leg A: the specification-editing machine of tla/Reject.tla, all 2^9 specifications x 20 entry points x 2 models; a design that silently prefers one permeate condition is a negative configuration",
     "leg C: TLC writes the table of (entry point, invalid class, model) rows; each row is executed with otherwise valid random arguments, next to a valid control call",
     "any exception type counts as rejection; process models are called with at least one step (with zero steps no driving force is computed)",
@@ -58,6 +59,7 @@ def run(ctx, pool):
     }
     res["required_events"] = {"Try": hist.get("Try", 0)}
     res["trace_lookup"] = lambda v: [v["record"]]
+    core.attach_tlaps(ctx, res, [('RejectProofs.tla', ['Reject.tla'])])
     return res
 
 
